@@ -261,7 +261,9 @@ func (rb *rdBroker) settle() {
 	t0 := time.Now()
 	for time.Since(t0) < rdSettleMax {
 		rb.mu.Lock()
-		ok := !rb.hang && (rb.lastAtHwm || time.Since(rb.last) > rdQuiet)
+		// quiet must be measured from now on as well: the message the application has just taken may have unblocked
+		// the fetcher, whose next fetch has not reached the broker yet
+		ok := !rb.hang && (rb.lastAtHwm || (time.Since(rb.last) > rdQuiet && time.Since(t0) > rdQuiet))
 		rb.mu.Unlock()
 		if ok {
 			return
